@@ -43,11 +43,24 @@ RULE_READ = ("each run is one tape-decided message (random value tree or aircraf
              "limits T and D, and 1-4 readers; non-trivial = at least one storage fault fired or at least one preemptive context switch between readers; "
              "distinct = distinct hashes of (delivered segment bytes, delivery path, schedule trace)")
 
+ENGINES["rpcsim"] = {
+    "real": ["rpc.Conn and everything under it (rpc/*.go), capnp.Client / Promise / Answer, server.Server for the application capabilities, std/capnp/rpc generated accessors - mechanically instrumented"],
+    "stub": ["message transport (SimTransport) or byte pipe under the real stream transports", "remote peer: a model peer that only makes spec-legal moves (or a hostile peer / a second real Conn)", "application method implementations and Shutdowners", "clock (testing/synctest)", "scheduler"],
+}
+
 RULE_SCHED = ("each run is one seeded schedule+workload drawn from the choice tape; a run is non-trivial if it had at least one "
               "preemptive context switch or fired fault; distinct = distinct hashes of the full decision trace (schedule choices, "
               "fired faults, fired events) among non-trivial runs")
 
 CHECKS = {
+    "C06": {
+        "claim": "seeded search over schedules and message timings of one real rpc.Conn against a spec-following model peer (Bootstrap, Calls to imports and to promised answers that have or have not returned, Finish before or after Return, Release) and 0-2 local caller tasks; a protocol monitor over the two-directional message history checks exactly one Return per question with the content the application produced, exactly-once resolution of local calls with the peer's result, no question id reuse before its Finish, and per-target delivery order",
+        "engine": "rpcsim", "level": "exploration",
+        "budget": {"quick": 30, "thorough": 900},
+        "rule": RULE_SCHED,
+        "faults": ["ctx_cancel", "app_release"],
+        "params": {"mode": "conform"},
+    },
     "C01": {
         "claim": "fault injection on stored / in-flight bytes between a writer node and a reader node: bit flips, boundary-valued hostile pointer words (offsets onto the last word / one past the end / before the start, huge counts, composite tags with zero-size elements and negative counts, far pointers to missing segments, bad landing pads, unknown pointer kinds), torn, dropped, duplicated and swapped segments, tampered segment tables and faulty arenas, delivered through every unmarshal/decoder path; 1-3 readers (sequentially, or concurrently under the scheduler) apply every read-side operation; no panic, no process abort, no hang, and every byte slice handed out lies inside the supplied bytes (segments have cap==len)",
         "engine": "readsim", "level": "exploration",
@@ -139,6 +152,7 @@ CHECKS = {
 
 
 ENGINE_KIND = {
+    "rpcsim": "deterministic simulation of rpc.Conn against a model peer / hostile peer / second Conn with a protocol monitor; per-operation transport fault sweep",
     "readsim": "deterministic simulation of writer -> faulty storage -> 1-4 readers; linearizability of the read budget checked with porcupine",
     "buildsim": "deterministic simulation of builder nodes on simulated allocators with an executable value-tree model and independent wire-format oracles",
     "streamsim": "deterministic simulation of writer -> faulty byte pipe -> reader for the packed codec and the stream framing, with per-stream cut-point enumeration",
